@@ -80,6 +80,8 @@ fn base(name: &str, prop: &'static str, alphabet: Vec<Cmd>, depth: usize, tier: 
         opaques: vec![],
         opaque_mod: 0,
         vbuckets: vec![],
+        alt_thread_from: 0,
+        no_dedup: false,
     }
 }
 
@@ -468,6 +470,27 @@ fn c15(tier: Tier) -> Vec<SeqCfg> {
     c.evict = Evict::Generous;
     c.check_usage = true;
     v.push(c);
+    // which worker thread serves a client is not the client's business: the same small alphabet
+    // twice, the second copy executed by another OS thread (one command at a time, no race)
+    {
+        let half = vec![
+            set(K1, b"aaaaaaaaaa", 1, 0),
+            set(K2, b"7", 3, 0),
+            delete(K1, Zero),
+            delete(K2, Zero),
+            incr(K2, 1, 5, 0, Zero),
+            get(K1),
+        ];
+        let mut both = half.clone();
+        both.extend(half.iter().cloned());
+        let mut c = base("C15/two-worker-threads-L=4000", "C15", both, if tier == Tier::Quick { 4 } else { 5 }, tier);
+        c.sut.policy = Policy::Random(4000);
+        c.evict = Evict::Generous;
+        c.check_usage = true;
+        c.alt_thread_from = half.len();
+        c.no_dedup = true;
+        v.push(c);
+    }
     v
 }
 
@@ -549,6 +572,8 @@ fn c19(tier: Tier) -> Vec<SeqCfg> {
         delete(K2, Stale1),
         get(K1),
         getk(K2),
+        // an oversized store (item limit 1024): refused and skipped, loud or quiet
+        set(K2, &vec![b'x'; 1100], 9, 0),
         flush(None),
         flush(Some(2)),
         tick(1),
